@@ -194,6 +194,11 @@ FAMILIES = [
            quick=dict(np_=1, nc=2, fault_kinds=[Fault.NONE]),
            reach=['none', 'put-after-close', 'closed-seen'],
            bounds='1 producer x 2 puts, 2 consumers, no fault'),
+    Family('c2_fault', fam_queue,
+           quick=dict(np_=1, nc=2, fault_kinds=[Fault.CANCEL, Fault.CLOSE], pmax=2, close_modes=1,
+                      victims=['c1']),
+           reach=['cancel', 'close', 'fault-hits-waiting-receiver'],
+           bounds='1 producer x 2 puts, 2 consumers, the second consumer cancelled / closed at (c,p)'),
     Family('p1c2', fam_queue,
            thorough=dict(np_=1, nc=2, fault_kinds=ALLF, pmax=2, placements=False,
                          victims=['p0', 'c0']),
